@@ -48,12 +48,31 @@ class CNOTDecomposer(Decomposer):
             A = [Ry(target_qubit, Float(-theta1_with_x / 2)), Rz(target_qubit, Float(-theta2_with_x))]
             B = [Rz(target_qubit, Float(theta2_with_x)), Ry(target_qubit, Float(theta1_with_x / 2))]
 
+            # B.X.A equals X.U only up to the sign of the SU(2) representative Rz(t2).Ry(t1).Rz(t2) of the
+            # Z-Y-Z angles. Under control this sign is a relative phase on the control qubit: compare it with
+            # the representative Rx(pi).R(axis, angle) of X.U, as quaternions (w, x, y, z).
+            sin_half = math.sin(g.target_gate.angle / 2)
+            x_u = [
+                -sin_half * g.target_gate.axis[0],
+                math.cos(g.target_gate.angle / 2),
+                -sin_half * g.target_gate.axis[2],
+                sin_half * g.target_gate.axis[1],
+            ]
+            zyz = [
+                math.cos(theta1_with_x / 2) * math.cos(theta2_with_x),
+                0.0,
+                math.sin(theta1_with_x / 2),
+                math.cos(theta1_with_x / 2) * math.sin(theta2_with_x),
+            ]
+            sign = sum(float(u) * v for u, v in zip(x_u, zyz))
+            control_phase = g.target_gate.phase - math.pi / 2 if sign < 0 else g.target_gate.phase + math.pi / 2
+
             return filter_out_identities(
                 [
                     *B,
                     CNOT(g.control_qubit, target_qubit),
                     *A,
-                    Rz(g.control_qubit, Float(g.target_gate.phase - math.pi / 2)),
+                    Rz(g.control_qubit, Float(control_phase)),
                 ],
             )
 
